@@ -429,6 +429,21 @@ func (l *queue) Advance() error {
 	return nil
 }
 
+// advanceExhausted moves on to the next segment if the head segment has been
+// consumed completely. Unlike Advance it never skips a block, so it is safe to
+// call after Current reported EOF even if a block was appended since.
+func (l *queue) advanceExhausted() error {
+	l.mu.Lock()
+	defer l.mu.Unlock()
+	if l.head == nil {
+		return ErrNotOpen
+	}
+	if !l.head.empty() {
+		return nil
+	}
+	return l.trimHead()
+}
+
 func (l *queue) trimHead() error {
 	if len(l.segments) > 1 {
 		l.segments = l.segments[1:]
